@@ -13,8 +13,10 @@ import (
 	"math/rand/v2"
 	"net"
 	"net/http"
+	"os"
 	"path/filepath"
 	"regexp"
+	"runtime/pprof"
 	"strconv"
 	"strings"
 	"sync"
@@ -241,9 +243,10 @@ func (l *lateCluster) BroadcastHighWatermark(v uint64) error        { return l.r
 // ---- world ----
 
 type cdcInst struct {
-	svc  *cdc.Service
-	lc   *lateCluster
-	inst int
+	svc     *cdc.Service
+	lc      *lateCluster
+	inst    int
+	stopped bool // Stop has been called (it must not be called twice)
 }
 
 type world struct {
@@ -363,12 +366,15 @@ func (w *world) restart(n *hcluster.Node) error {
 		return fmt.Errorf("close: %w", err)
 	}
 	if old != nil {
+		old.stopped = true
 		done := make(chan struct{})
 		go func() { old.svc.Stop(); close(done) }()
 		select {
 		case <-done:
 		case <-time.After(30 * time.Second):
 			w.cl.Net.HealAll()
+			fmt.Fprintf(os.Stderr, "cdc.Service.Stop of %s did not return within 30 s; goroutines follow\n", n.Name)
+			pprof.Lookup("goroutine").WriteTo(os.Stderr, 1)
 			return fmt.Errorf("cdc.Service.Stop of %s did not return within 30 s", n.Name)
 		}
 	}
@@ -386,7 +392,10 @@ func (w *world) stopAll() {
 	w.mu.Lock()
 	var all []*cdcInst
 	for _, ci := range w.cdc {
-		all = append(all, ci)
+		if !ci.stopped {
+			ci.stopped = true
+			all = append(all, ci)
+		}
 	}
 	w.mu.Unlock()
 	for _, ci := range all {
